@@ -205,10 +205,7 @@ func (x *Exec) lookupObj(env *evalEnv, id *ast.Ident) types.Object {
 		}
 	}
 	if env.scope != nil {
-		sc := env.scope.Innermost(env.pos)
-		if sc == nil {
-			sc = env.scope
-		}
+		sc := innermostScope(env.scope, env.pos)
 		if _, o := sc.LookupParent(id.Name, env.pos); o != nil {
 			return o
 		}
@@ -1012,4 +1009,23 @@ func (x *Exec) recv(env *evalEnv, n *ast.UnaryExpr) (Val, Val) {
 	x.st.ghost["fetched"] = Val{"(+ " + g.S + " 1)", tInt}
 	x.trustedUsed["A-seq: unbuffered channel with one sender and one receiver delivers the k-th send to the k-th receive; a closed channel yields the zero value"] = true
 	return v, Val{okT, tBool}
+}
+
+// innermostScope: the innermost scope of the function whose extent contains pos (own walk: Scope.Innermost returns nil
+// for function scopes whose recorded extent does not include the position)
+func innermostScope(sc *types.Scope, pos token.Pos) *types.Scope {
+	for {
+		found := false
+		for i := 0; i < sc.NumChildren(); i++ {
+			c := sc.Child(i)
+			if c.Pos() <= pos && pos < c.End() {
+				sc = c
+				found = true
+				break
+			}
+		}
+		if !found {
+			return sc
+		}
+	}
 }
